@@ -237,7 +237,9 @@ def rule_focus_path(ctx: Ctx) -> RuleResult:
         fi = p.func(f"urwid.widget.container.WidgetContainerMixin.{nm}")
         cfg = cfg_of(fi)
         pos = nodes_where(cfg, lambda x: isinstance(x, ast.Attribute) and x.attr == "focus_position")
-        step = [n for n in cfg.nodes if isinstance(n.ast, (ast.Assign, ast.AnnAssign)) and ast.unparse(n.ast.value).replace(" ", "") in ("w.focus.base_widget",)]
+        # the walker variable: the local that starts as `self` (by role, not by name)
+        walkers = {t.id for n in fi.own_nodes() if isinstance(n, (ast.Assign, ast.AnnAssign)) and isinstance(n.value, ast.Name) and n.value.id == fi.self_name for t in (n.targets if isinstance(n, ast.Assign) else [n.target]) if isinstance(t, ast.Name)}
+        step = [n for n in cfg.nodes if isinstance(n.ast, (ast.Assign, ast.AnnAssign)) and isinstance(n.ast.value, ast.Attribute) and n.ast.value.attr == "base_widget" and isinstance(n.ast.value.value, ast.Attribute) and n.ast.value.value.attr == "focus" and isinstance(n.ast.value.value.value, ast.Name) and n.ast.value.value.value.id in walkers and any(isinstance(t, ast.Name) and t.id in walkers for t in (n.ast.targets if isinstance(n.ast, ast.Assign) else [n.ast.target]))]
         rr.inst(nm, True, {"function": nm, "focus_position_uses": len(pos), "descends_by": [norm(s.stmt, 40) for s in step]})
         if not pos or not step:
             rr.add(finding("SIB", fi, fi.node, f"{nm} no longer walks `w.focus_position` then `w = w.focus.base_widget`", construct=f"{nm} walk shape"))
